@@ -38,6 +38,32 @@ def check(ctx: Ctx) -> None:
     ctx.rule("R10.2", "routing: suggest_num_RC without explicit methods returns _suggest_using_default's (test, scores, lower, upper) unchanged; perform_kramers_kronig_test returns a suggested test (or the best of the suggestions), never one outside the suggestion")
     ctx.assumptions += ["the statistical clauses of C10 (estimated noise of the order of the injected one, drift margin) are not decided"]
 
+    ctx.rule("R10.3", "representation choice: the scores are computed over one list of candidates (sorted by pseudo chi-squared) and the returned candidate is taken from that same list — indices computed for one ordering are not applied to another")
+    REP = "pyimpspec.analysis.kramers_kronig.algorithms.representation"
+    ctx.modules_consulted.add(REP)
+    sr = model.fi(REP, "_suggest_representation")
+    spaces = set()
+    for n in walk_ordered(sr.node):
+        if isinstance(n, (ast.ListComp, ast.GeneratorExp)) and len(n.generators) == 1 and isinstance(n.generators[0].iter, ast.Name):
+            spaces.add(n.generators[0].iter.id)
+        if isinstance(n, ast.For) and isinstance(n.iter, ast.Call) and dotted(n.iter.func) == "enumerate" and n.iter.args and isinstance(n.iter.args[0], ast.Name):
+            spaces.add(n.iter.args[0].id)
+    rets3 = [n for n in walk_ordered(sr.node) if isinstance(n, ast.Return) and isinstance(n.value, ast.Subscript) and isinstance(n.value.value, ast.Name)]
+    ctx.instance("R10.3", f"_suggest_representation: scores over {sorted(spaces)}, result taken from {sorted({r.value.value.id for r in rets3})}")
+    if not rets3 or not spaces:
+        raise AnalysisError("_suggest_representation: score lists / indexed returns not found")
+    srt = [n for n in walk_ordered(sr.node) if isinstance(n, (ast.Assign, ast.AnnAssign)) and n.value is not None and isinstance(n.value, ast.Call) and dotted(n.value.func) == "sorted"
+           and "pseudo_chisqr" in norm(n.value)]
+    sorted_name = norm(srt[0].targets[0] if isinstance(srt[0], ast.Assign) else srt[0].target) if len(srt) == 1 else None
+    bad3 = [r for r in rets3 if r.value.value.id != sorted_name]
+    if sorted_name is None:
+        ctx.violation("R10.3", "_suggest_representation:unsorted", REP, sr.node, "the candidates are not sorted by pseudo chi-squared before the better one is taken")
+    elif spaces != {sorted_name} or bad3:
+        ctx.violation("R10.3", "_suggest_representation:index-space", REP, (bad3[0] if bad3 else sr.node),
+                      f"scores are computed over {sorted(spaces)} but the result is taken from {sorted({r.value.value.id for r in rets3})}; the list sorted by pseudo chi-squared is `{sorted_name}`: an index (or 'the first') of one ordering is applied to another, so the worse representation can be returned")
+    else:
+        ctx.ok()
+
     sd = model.fi(ALG, "_suggest_using_default")
     order = [id(x) for x in walk_ordered(sd.node)]
     pos = lambda n: order.index(id(n))
